@@ -85,6 +85,28 @@ class C13Irrigation(Monitor):
             self.sched[pd.Timestamp(d.replace("/", "-"))] = float(x)
         self.cum = 0.0
         self.cur_season = None
+        # the stage 1 / stage 2 boundary (10 % canopy cover) of a calendar-day crop, from the user's keywords and the crop table:
+        # emergence (or transplant recovery) + ln(0.1 / CC0) / CGC
+        self.t10 = None
+        try:
+            import math as _math
+            from aquacrop.entities.crops.crop_params import crop_params as _tbl
+            from .. import spec as _S2
+
+            cs_ = ctx.spec["crop"]
+            kw_ = dict(cs_.get("kw") or {})
+            if cs_.get("scale"):
+                kw_ = {**_S2.scaled_crop_kwargs(cs_["name"], cs_["scale"]), **kw_}
+            tb_ = _tbl.get(cs_["name"], {})
+
+            def cv(k):
+                return float(kw_[k]) if k in kw_ else float(tb_[k])
+
+            if int(tb_.get("CalendarType", 1)) == 1 and not kw_.get("SwitchGDD") and not cs_.get("gddscale"):
+                cc0 = cv("PlantPop") * cv("SeedSize") * 1e-8
+                self.t10 = round(cv("EmergenceCD") + _math.log(0.1 / cc0) / cv("CGC_CD"))
+        except Exception:  # noqa: BLE001
+            self.t10 = None
         # days that are outside every growing season BY CONFIGURATION: a season lasts from its planting date to the day before the
         # latest harvest date (the user's, or planting + calendar length + 30 days for calendar crops; unknown for thermal crops)
         self.windows = None
@@ -132,7 +154,13 @@ class C13Irrigation(Monitor):
             tadj = float(g[GX["gdd_cum"]]) - self.del_gdd
         if float(crop.MaxCanopy) > float(crop.Senescence):
             ctx.hit("max_canopy_after_senescence_start")
-        if tadj <= float(crop.Canopy10Pct):
+        t10 = float(crop.Canopy10Pct)
+        if self.t10 is not None and int(crop.CalendarType) == 1:
+            ctx.hit("stage_boundary_from_the_configuration")
+            if abs(t10 - self.t10) > 1e-9:
+                ctx.violate("threshold-uses-current-growth-stage", None, observed={"time_to_10pct_canopy": t10}, expected={"emergence + ln(0.1/CC0)/CGC": self.t10})
+            t10 = float(self.t10)
+        if tadj <= t10:
             self.ref_stage = 1
         elif tadj <= float(crop.MaxCanopy):
             self.ref_stage = 2
